@@ -1,5 +1,6 @@
 import Driver.Util
 import Driver.SemDrv
+import Driver.SSemDrv
 import Driver.SchedDrv
 /-! `driver <model>`: reads harness output (cases) on stdin, prints one verdict line per case. -/
 open Driver
@@ -7,6 +8,7 @@ open Driver
 def dispatch (model : String) (c : Case) : String :=
   match model with
   | "sem" => SemDrv.runCase c
+  | "ssem" => SSemDrv.runCase c
   | "sched" => SchedDrv.runCase c
   | _ => s!"case {c.id} reject 0 unknown-model-{model}"
 
